@@ -6,7 +6,7 @@
    nothing is assumed about H. *)
 From DV Require Import Base.Prelude.
 From DV Require Model.NameM.
-From DV Require Import Model.TsigM Proofs.TsigSpec Proofs.TsigLemmas Proofs.TsigInj Proofs.TsigReader Proofs.TsigStream Proofs.TsigSender Proofs.TsigTamper Proofs.TsigCodec Proofs.TsigWire Proofs.TsigInjNames.
+From DV Require Import Model.TsigM Proofs.TsigSpec Proofs.TsigLemmas Proofs.TsigInj Proofs.TsigReader Proofs.TsigStream Proofs.TsigSender Proofs.TsigTamper Proofs.TsigCodec Proofs.TsigWire Proofs.TsigInjNames Proofs.TsigRender.
 From DV Require Import Proofs.NameValid.
 Open Scope Z_scope.
 
@@ -124,6 +124,19 @@ Theorem read_signed_message :
             m_recs := rev ((3, TSIG, ANY, length wire) :: r_recs s3) |}.
 Proof. exact read_signed_message_lemma. Qed.
 Print Assumptions read_signed_message.
+
+(* rendering the same Message object again (Message.to_wire called twice: size probe,
+   retransmission, first envelope served twice): after a render stored the signed rdata and, for
+   multi, the returned context in the object, every later render is the same function of
+   (octets, key, request MAC, tsig_ctx argument, clock) as a render of the original object *)
+Theorem rerender_is_render :
+  forall H wire k owner rmac ctx multi now1 o w1 o1,
+    render H wire k owner rmac ctx multi now1 o = Ok (w1, o1) ->
+    forall wire2 rmac2 ctx2 multi2 now2,
+      sign_message H wire2 k owner (o_tsig o1) now2 rmac2 ctx2 multi2
+      = sign_message H wire2 k owner (o_tsig o) now2 rmac2 ctx2 multi2.
+Proof. exact rerender_is_render_lemma. Qed.
+Print Assumptions rerender_is_render.
 
 (* ---- what validate accepts ---- *)
 Theorem validate_accepts_iff :
